@@ -251,6 +251,10 @@ def text_pool(rng, big):
                 if kind >= 2:
                     out.append(cps(t.upper()))
                     out.append(cps(t[:8] + t[8:].upper()))          # mixed case
+                    sep = t.rindex('1')
+                    out.append(cps(t[:sep].upper() + t[sep:]))        # upper prefix, lower data
+                    out.append(cps(t[:sep] + t[sep:].upper()))        # lower prefix, upper data
+                    out.append(cps(t[:1].upper() + t[1:]))            # one upper letter inside the prefix
                     # non-ASCII characters whose case folding lands in the charset (KELVIN SIGN -> k,
                     # LONG S -> S): never part of an address, in either case form
                     for base in (t, t.upper()):
